@@ -489,7 +489,9 @@ impl Server {
                     );
                 });
 
-                let new_key = Key::from_rel_link_url(&params.new_name, relative_to);
+                // the new name is a key of the library (that is how it is checked, built and
+                // created above and below), whatever directory the request comes from
+                let new_key: Key = params.new_name.clone().into();
 
                 let document_changes = affected_keys
                     .into_iter()
